@@ -41,7 +41,8 @@ Record InvX (exc : option N) (w : world) : Prop := mkInv {
   i_by_fresh : forall who wid, lookup who (by_actor w) = Some wid -> who < next_aid w;
   i_pool_nodup : NoDup (map fst (pool w));
   i_slot_actor : forall wid p, lookup wid (pool w) = Some p ->
-      exists act, lookup (w_aid p) (actors w) = Some act /\ a_wid act = wid
+      exists act, lookup (w_aid p) (actors w) = Some act /\ a_wid act = wid;
+  i_one : forall aid act, lookup aid (actors w) = Some act -> (length (actor_jobs act) <= 1)%nat
 }.
 Definition Inv := InvX None.
 
@@ -56,7 +57,7 @@ Proof. intros (A1&A2&A3&A4&A5&A6&A7) (B1&B2&B3&B4&B5&B6&B7). repeat split; congr
 
 Lemma sameX_Inv exc w w' : sameX w w' -> InvX exc w -> InvX exc w'.
 Proof.
-  intros (A1&A2&A3&A4&A5&A6&A7) [H1 H2 H3 H4 H5 H6 H7 H8 H9 H10].
+  intros (A1&A2&A3&A4&A5&A6&A7) [H1 H2 H3 H4 H5 H6 H7 H8 H9 H10 H11].
   assert (R : running_now w' = running_now w) by (unfold running_now; rewrite A7; reflexivity).
   constructor.
   - intros wid p L E. rewrite A1 in L. destruct (H1 wid p L E) as (act & La & Wa & I & P).
@@ -70,6 +71,7 @@ Proof.
   - rewrite A5, A6. assumption.
   - rewrite A1. assumption.
   - rewrite A1, A2. assumption.
+  - rewrite A2. assumption.
 Qed.
 
 Ltac sx := repeat split.
@@ -174,7 +176,7 @@ Definition sok (run : bool) (infl : list N) (wid : N) (p : wprops) (acts : list 
 (* the only thing a worker-level operation does to the actors: at most one cast to actor aid *)
 Definition cast_rel (aid : N) (acts acts' : list (N * actor)) : Prop :=
   acts' = acts \/
-  exists act j, lookup aid acts = Some act /\ a_alive act = true
+  exists act j, lookup aid acts = Some act /\ a_alive act = true /\ actor_jobs act = []
                 /\ acts' = update aid (set_a_mb (a_mb act ++ [j]) act) acts.
 
 Lemma akeys_mb act j : akeys (set_a_mb (a_mb act ++ [j]) act) = map j_key (a_mb act) ++ [j_key j] ++ map j_key (match a_run act with Some x => [x] | None => [] end).
@@ -191,7 +193,7 @@ Proof.
   intros E (act & L & W & I & P). unfold dispatch_job, cast_job. rewrite L.
   rewrite E in I. apply incl_nil_eq in I.
   destruct (a_alive act) eqn:A.
-  - split; [|split; [right; exists act, j; auto|reflexivity]].
+  - split; [|split; [right; exists act, j; repeat split; auto; unfold akeys in I; destruct (actor_jobs act); [reflexivity|discriminate]|reflexivity]].
     exists (set_a_mb (a_mb act ++ [j]) act). simpl.
     split; [eapply lookup_update_same; eassumption|]. split; [assumption|].
     assert (K : akeys (set_a_mb (a_mb act ++ [j]) act) = [j_key j]).
@@ -298,10 +300,10 @@ Qed.
 (* ------------------------------------------------------------------ lifting to the world *)
 Lemma cast_rel_lookup aid acts acts' x : cast_rel aid acts acts' ->
   lookup x acts' = lookup x acts \/
-  (x = aid /\ exists act j, lookup x acts = Some act /\ a_alive act = true
+  (x = aid /\ exists act j, lookup x acts = Some act /\ a_alive act = true /\ actor_jobs act = []
                             /\ lookup x acts' = Some (set_a_mb (a_mb act ++ [j]) act)).
 Proof.
-  intros [->|(act & j & L & A & ->)]; [left; reflexivity|].
+  intros [->|(act & j & L & A & JE & ->)]; [left; reflexivity|].
   rewrite lookup_update. destruct (x =? aid) eqn:E; [|left; reflexivity].
   apply N.eqb_eq in E. subst x. rewrite L. right. split; [reflexivity|]. exists act, j. auto.
 Qed.
@@ -310,11 +312,9 @@ Lemma cast_rel_wid aid acts acts' x act' : cast_rel aid acts acts' -> lookup x a
   exists act, lookup x acts = Some act /\ a_wid act = a_wid act' /\ a_alive act = a_alive act'
               /\ (actor_jobs act' = [] -> actor_jobs act = []).
 Proof.
-  intros CR L. destruct (cast_rel_lookup _ _ _ x CR) as [E|(_ & act & j & La & A & Lb)].
+  intros CR L. destruct (cast_rel_lookup _ _ _ x CR) as [E|(_ & act & j & La & A & JE & Lb)].
   - rewrite E in L. exists act'. auto.
   - rewrite Lb in L. inversion L; subst act'. exists act. simpl. repeat split; auto.
-    unfold actor_jobs. simpl. intros H. apply app_eq_nil in H. destruct H as [H _].
-    apply app_eq_nil in H. destruct H as [_ H]. discriminate.
 Qed.
 
 (* slot wid is rewritten to p' (possibly behind a new actor), at most one cast goes to its actor,
@@ -329,7 +329,7 @@ Lemma lift_gen exc w wid p p' acts' out' by' :
   (forall who wid2, lookup who by' = Some wid2 -> exists p2, lookup wid2 (update wid p' (pool w)) = Some p2 /\ w_aid p2 = who) ->
   Inv (set_by_actor by' (set_pool (update wid p' (pool w)) (set_actors acts' (set_evs out' w)))).
 Proof.
-  intros [H1 H2 H3 H4 H5 H6 H7 H8 H9 H10] EX L S CR AID BN BF BY.
+  intros [H1 H2 H3 H4 H5 H6 H7 H8 H9 H10 H11] EX L S CR AID BN BF BY.
   destruct S as (actS & LaS & WaS & IS & PS).
   destruct (cast_rel_wid _ _ _ _ _ CR LaS) as (actS0 & LaS0 & WaS0 & _).
   assert (OTHER : forall wid2 p2, lookup wid2 (pool w) = Some p2 -> wid2 <> wid ->
@@ -348,7 +348,7 @@ Proof.
     destruct (cast_rel_wid _ _ _ _ _ CR La') as (act & La & Wa & Al & Jb).
     destruct (N.eq_dec aid (w_aid p')) as [->|NE].
     + rewrite LaS in La'. inversion La'; subst act'. split.
-      * destruct (cast_rel_lookup _ _ _ (w_aid p') CR) as [E|(_ & a1 & j & L1 & A1 & Lb)].
+      * destruct (cast_rel_lookup _ _ _ (w_aid p') CR) as [E|(_ & a1 & j & L1 & A1 & JE1 & Lb)].
         -- rewrite E in LaS. destruct (H2 _ _ LaS J) as [A _]. exact A.
         -- rewrite Lb in LaS. inversion LaS; subst. exact A1.
       * exists p'. rewrite WaS, lookup_update, L, N.eqb_refl. auto.
@@ -361,11 +361,11 @@ Proof.
   - intros aid act' La'. destruct (cast_rel_wid _ _ _ _ _ CR La') as (act & La & _). eauto.
   - intros m Im. specialize (H4 m Im). destruct m; simpl in *; try tauto.
     destruct H4 as (act & La & Wa).
-    destruct (cast_rel_lookup _ _ _ sender CR) as [E|(_ & act1 & j & La1 & _ & Lb)].
+    destruct (cast_rel_lookup _ _ _ sender CR) as [E|(_ & act1 & j & La1 & _ & _ & Lb)].
     + exists act. rewrite E. auto.
     + rewrite La in La1. inversion La1; subst act1. eexists. split; [exact Lb|exact Wa].
   - intros a Ia. destruct (H5 a Ia) as (act & La & D).
-    destruct (cast_rel_lookup _ _ _ a CR) as [E|(_ & act1 & j & La1 & A1 & _)].
+    destruct (cast_rel_lookup _ _ _ a CR) as [E|(_ & act1 & j & La1 & A1 & _ & _)].
     + exists act. rewrite E. auto.
     + rewrite La in La1. inversion La1; subst. congruence.
   - exact BY.
@@ -377,6 +377,10 @@ Proof.
     + apply N.eqb_eq in E. subst wid2. inversion L2; subst p2. exists actS. auto.
     + apply N.eqb_neq in E. destruct (H10 wid2 p2 L2) as (act & La & Wa).
       exists act. rewrite (OTHER wid2 p2 L2 E). auto.
+  - intros aid act' La'. destruct (cast_rel_lookup _ _ _ aid CR) as [E|(_ & act & j & La & A & JE & Lb)].
+    + rewrite E in La'. eauto.
+    + rewrite Lb in La'. inversion La'; subst act'. unfold actor_jobs in *. simpl.
+      apply app_eq_nil in JE. destruct JE as [M R]. rewrite M, R. simpl. lia.
 Qed.
 
 Lemma lift_slot exc w wid p p' acts' out' :
@@ -494,9 +498,10 @@ Lemma actor_change_Inv exc w aid act act' msgs' sup' :
   (forall x, x <> aid -> inflight x msgs' = inflight x (inbox_msg w)) ->
   (forall m, In m msgs' -> In m (inbox_msg w) \/ exists k, m = MFinished (a_wid act) k aid) ->
   (forall a, In a sup' -> In a (inbox_sup w) \/ (a = aid /\ a_alive act' = false)) ->
+  (length (actor_jobs act') <= length (actor_jobs act))%nat ->
   InvX exc (set_inbox_sup sup' (set_inbox_msg msgs' (set_actors (update aid act' (actors w)) w))).
 Proof.
-  intros [H1 H2 H3 H4 H5 H6 H7 H8 H9 H10] L W A J I P O M SU.
+  intros [H1 H2 H3 H4 H5 H6 H7 H8 H9 H10 H11] L W A J I P O M SU LE.
   assert (LK : forall x, lookup x (update aid act' (actors w)) = if x =? aid then Some act' else lookup x (actors w)).
   { intros x. rewrite lookup_update, L. reflexivity. }
   constructor; unfold slot_ok, running_now in *; simpl.
@@ -534,6 +539,8 @@ Proof.
     destruct (w_aid p =? aid) eqn:EA; [|eauto].
     apply N.eqb_eq in EA. rewrite EA in La. rewrite L in La. inversion La; subst a0.
     exists act'. split; [reflexivity|congruence].
+  - intros x a' La'. rewrite LK in La'. destruct (x =? aid) eqn:EA; [|eauto].
+    inversion La'; subst a'. specialize (H11 aid act L). lia.
 Qed.
 
 Lemma stop_actor_Inv exc a w : InvX exc w -> InvX exc (stop_actor a w).
@@ -544,6 +551,7 @@ Proof.
   apply Q; clear Q; simpl; auto.
   all: try solve [intros J; split; [exact J|reflexivity]].
   all: try solve [apply incl_refl].
+  all: try solve [unfold actor_jobs; simpl; lia].
 Qed.
 
 Lemma w_start_Inv exc a w : InvX exc w -> InvX exc (w_start a w).
@@ -560,6 +568,7 @@ Proof.
   all: try solve [intros _; split; [|reflexivity]; unfold actor_jobs; rewrite M; discriminate].
   all: try solve [intros k Ik; eapply Permutation_in; [exact K|exact Ik]].
   all: try solve [intros _ _; apply Permutation_app_tail; exact K].
+  all: try solve [unfold actor_jobs; simpl; rewrite R, M; simpl; rewrite !app_length; simpl; lia].
 Qed.
 
 Lemma inflight_app a l1 l2 : inflight a (l1 ++ l2) = inflight a l1 ++ inflight a l2.
@@ -585,6 +594,7 @@ Proof.
     all: try solve [intros y NE; rewrite inflight_app; simpl; apply N.eqb_neq in NE; rewrite N.eqb_sym in NE; rewrite NE;
                     simpl; apply app_nil_r].
     all: try solve [intros m Im; apply in_app_iff in Im; destruct Im as [Im|[<-|[]]]; [left; exact Im|right; eauto]].
+    all: try solve [unfold actor_jobs; simpl; rewrite R; rewrite !app_length; simpl; lia].
   - pose proof (actor_change_Inv exc w a x x' (inbox_msg w) (inbox_sup w) H L) as Q.
     eapply sameX_Inv; [|apply Q; clear Q; simpl; auto].
     all: try solve [sx].
@@ -592,6 +602,7 @@ Proof.
     all: try solve [rewrite AK; apply incl_appl, incl_refl].
     all: try solve [intros F; discriminate].
     all: try solve [intros F; rewrite RW in F; discriminate].
+    all: try solve [unfold actor_jobs; simpl; rewrite R; rewrite !app_length; simpl; lia].
 Qed.
 
 Lemma actor_exit_Inv exc a cm w : InvX exc w -> InvX exc (actor_exit a cm w).
@@ -605,6 +616,7 @@ Proof.
   all: try solve [intros k []].
   all: try solve [intros _ F; discriminate].
   all: try solve [intros y Iy; apply in_app_iff in Iy; destruct Iy as [Iy|[<-|[]]]; auto].
+  all: try solve [simpl; lia].
 Qed.
 
 (* ------------------------------------------------------------------ structural changes of the pool *)
@@ -626,7 +638,7 @@ Lemma pool_map_Inv w f :
   (forall p, w_aid (f p) = w_aid p /\ w_curr (f p) = w_curr p) -> Inv w ->
   Inv (set_pool (map (fun e => (fst e, f (snd e))) (pool w)) w).
 Proof.
-  intros Hf [H1 H2 H3 H4 H5 H6 H7 H8 H9 H10].
+  intros Hf [H1 H2 H3 H4 H5 H6 H7 H8 H9 H10 H11].
   constructor; unfold slot_ok, running_now in *; simpl; try assumption.
   - intros wid p L _. rewrite lookup_map in L. destruct (lookup wid (pool w)) as [q|] eqn:E; [|discriminate].
     inversion L; subst p. destruct (Hf q) as [A C]. rewrite A, C. apply (H1 wid q E). discriminate.
@@ -647,7 +659,7 @@ Lemma remove_slot_Inv w wid p by' :
   (forall who wid2, lookup who by' = Some wid2 -> lookup who (by_actor w) = Some wid2 /\ wid2 <> wid) ->
   Inv (set_by_actor by' (set_pool (remove_key wid (pool w)) w)).
 Proof.
-  intros [H1 H2 H3 H4 H5 H6 H7 H8 H9 H10] L JL BN BS.
+  intros [H1 H2 H3 H4 H5 H6 H7 H8 H9 H10 H11] L JL BN BS.
   constructor; unfold slot_ok, running_now in *; simpl; try assumption.
   - intros wid2 p2 L2 _. rewrite lookup_remove in L2 by assumption.
     destruct (wid2 =? wid); [discriminate|]. apply H1; [assumption|discriminate].
@@ -699,7 +711,7 @@ Qed.
 Lemma new_actor_Inv exc w wid :
   InvX exc w -> InvX exc (set_actors (actors w ++ [(next_aid w, new_actor wid)]) (set_next_aid (next_aid w + 1) w)).
 Proof.
-  intros [H1 H2 H3 H4 H5 H6 H7 H8 H9 H10].
+  intros [H1 H2 H3 H4 H5 H6 H7 H8 H9 H10 H11].
   assert (NEW : lookup (next_aid w) (actors w) = None).
   { destruct (lookup (next_aid w) (actors w)) eqn:E; [|reflexivity]. apply H3 in E. lia. }
   assert (LK : forall x act, lookup x (actors w) = Some act -> lookup x (actors w ++ [(next_aid w, new_actor wid)]) = Some act).
@@ -720,6 +732,9 @@ Proof.
   - intros who wid2 Lb. apply H8 in Lb. lia.
   - assumption.
   - intros wid2 p L. destruct (H10 wid2 p L) as (act & La & Wa). exists act. split; [apply LK; exact La|exact Wa].
+  - intros aid act La. rewrite lookup_app_new in La. destruct (lookup aid (actors w)) as [a0|] eqn:E.
+    + inversion La; subst a0. eauto.
+    + destruct (next_aid w =? aid); [|discriminate]. inversion La; subst act. simpl. lia.
 Qed.
 
 Lemma inflight_fresh w a : Inv w -> lookup a (actors w) = None -> inflight a (inbox_msg w) = [].
@@ -739,7 +754,7 @@ Proof.
   { destruct (lookup (next_aid w) (actors w)) eqn:E; [|reflexivity]. apply (i_fresh_a _ _ H) in E. lia. }
   pose proof (inflight_fresh w (next_aid w) H NEW) as IF.
   pose proof (new_actor_Inv None w wid H) as H1.
-  destruct H1 as [H1 H2 H3 H4 H5 H6 H7 H8 H9 H10]. simpl in *.
+  destruct H1 as [H1 H2 H3 H4 H5 H6 H7 H8 H9 H10 H11]. simpl in *.
   assert (LA : lookup (next_aid w) (actors w ++ [(next_aid w, new_actor wid)]) = Some (new_actor wid)).
   { rewrite lookup_app_new, NEW, N.eqb_refl. reflexivity. }
   assert (NOSLOT : forall wid2 p2, lookup wid2 (pool w) = Some p2 -> w_aid p2 <> next_aid w).
@@ -772,6 +787,7 @@ Proof.
   - intros wid2 p2 L2. rewrite lookup_insert in L2. destruct (wid =? wid2) eqn:E.
     + apply N.eqb_eq in E. subst wid2. inversion L2; subst p2. simpl. exists (new_actor wid). auto.
     + apply H10. exact L2.
+  - exact H11.
 Qed.
 
 (* ------------------------------------------------------------------ the remaining factory functions *)
@@ -838,7 +854,7 @@ Proof.
   intros H EM RUN LEN NS.
   (* popping the message suspends the coupling of slot `who` only *)
   assert (HX : InvX (Some who) (set_inbox_msg rest w)).
-  { destruct H as [H1 H2 H3 H4 H5 H6 H7 H8 H9 H10].
+  { destruct H as [H1 H2 H3 H4 H5 H6 H7 H8 H9 H10 H11].
     constructor; unfold slot_ok, running_now in *; simpl; try assumption.
     - intros wid p L E. destruct (H1 wid p L ltac:(discriminate)) as (act & La & Wa & I & P).
       exists act. repeat split; try assumption. intros R A. specialize (P R A).
@@ -851,7 +867,7 @@ Proof.
   unfold worker_finished. cbn [pool set_inbox_msg].
   destruct (lookup who (pool w)) as [p0|] eqn:L0.
   2:{ assert (HI : Inv (set_inbox_msg rest w)).
-      { destruct HX as [H1 H2 H3 H4 H5 H6 H7 H8 H9 H10]. constructor; try assumption.
+      { destruct HX as [H1 H2 H3 H4 H5 H6 H7 H8 H9 H10 H11]. constructor; try assumption.
         intros wid p L _. apply H1; [exact L|]. intros E. inversion E; subst. simpl in L. congruence. }
       apply avail_tail_Inv. exact HI. }
   set (w0 := set_inbox_msg rest w) in *.
@@ -883,7 +899,7 @@ Qed.
 
 Lemma pop_sup_Inv w a rest : Inv w -> inbox_sup w = a :: rest -> Inv (set_inbox_sup rest w).
 Proof.
-  intros [H1 H2 H3 H4 H5 H6 H7 H8 H9 H10] E. constructor; try assumption.
+  intros [H1 H2 H3 H4 H5 H6 H7 H8 H9 H10 H11] E. constructor; try assumption.
   simpl. intros x Ix. apply H5. rewrite E. right. exact Ix.
 Qed.
 
@@ -991,7 +1007,7 @@ Qed.
 (* once the factory is no longer running, the exact coupling is not required any more *)
 Lemma stopping_Inv w : Inv w -> Inv (set_fstatus FStopping w).
 Proof.
-  intros [H1 H2 H3 H4 H5 H6 H7 H8 H9 H10]. constructor; try assumption.
+  intros [H1 H2 H3 H4 H5 H6 H7 H8 H9 H10 H11]. constructor; try assumption.
   intros wid p L E. destruct (H1 wid p L E) as (act & La & Wa & I & _).
   exists act. repeat split; try assumption. simpl. intros F. discriminate.
 Qed.
@@ -1010,7 +1026,7 @@ Lemma finalize_Inv w : Inv w -> Inv (finalize w).
 Proof.
   intros H. unfold finalize. destruct (fstatus w); try exact H.
   destruct (all_workers_gone w) eqn:G; [|exact H].
-  destruct H as [H1 H2 H3 H4 H5 H6 H7 H8 H9 H10].
+  destruct H as [H1 H2 H3 H4 H5 H6 H7 H8 H9 H10 H11].
   assert (DEAD : forall aid act, lookup aid (actors w) = Some act -> a_alive act = false).
   { unfold all_workers_gone in G. rewrite forallb_forall in G. intros aid act La.
     assert (I : In (aid, act) (actors w)).
@@ -1048,7 +1064,7 @@ Definition LEN (w : world) : Prop :=
 Lemma pop_msg_Inv w m rest : Inv w -> inbox_msg w = m :: rest ->
   (match m with MFinished _ _ _ => False | _ => True end) -> Inv (set_inbox_msg rest w).
 Proof.
-  intros [H1 H2 H3 H4 H5 H6 H7 H8 H9 H10] E NF.
+  intros [H1 H2 H3 H4 H5 H6 H7 H8 H9 H10 H11] E NF.
   constructor; unfold slot_ok, running_now in *; simpl; try assumption.
   - intros wid p L EX. destruct (H1 wid p L EX) as (act & La & Wa & I & P).
     exists act. repeat split; try assumption. intros R A. specialize (P R A). rewrite E in P.
@@ -1096,7 +1112,7 @@ Proof.
   assert (D : forall m, (match m with MFinished _ _ _ => False | _ => True end) ->
                         Inv (if running_now w then set_inbox_msg (inbox_msg w ++ [m]) w else w)).
   { intros m NF. destruct (running_now w); [|exact H].
-    destruct H as [H1 H2 H3 H4 H5 H6 H7 H8 H9 H10].
+    destruct H as [H1 H2 H3 H4 H5 H6 H7 H8 H9 H10 H11].
     constructor; unfold slot_ok, running_now in *; simpl; try assumption.
     - intros wid p L EX. destruct (H1 wid p L EX) as (act & La & Wa & I & P).
       exists act. repeat split; try assumption. intros R A. rewrite inflight_app.
@@ -1233,4 +1249,41 @@ Proof.
   induction ls as [|l ls IH]; intros w H; simpl in *; [exact I|].
   apply andb_prop in H. destruct H as [H1 H2]. split; [|apply IH; exact H2].
   intros -> S. apply stale_head_b in S. rewrite S in H1. discriminate.
+Qed.
+
+(* ------------------------------------------------------------------ one job per worker, one loss per death *)
+Theorem real_one_at_a_time : forall c n d rls ls a x,
+  run_ok c (init c n d rls) ls ->
+  lookup a (actors (run c (init c n d rls) ls)) = Some x -> (length (actor_jobs x) <= 1)%nat.
+Proof.
+  intros c n d rls ls a x OK L. exact (i_one _ _ (coupling_invariant c n d rls ls OK) a x L).
+Qed.
+
+Lemma lost_drop_jobs cm l out :
+  length (flat_map (fun e => match e with EDrop j _ => [j] | _ => [] end) (drop_jobs cm l out))
+  = (length l + length (flat_map (fun e => match e with EDrop j _ => [j] | _ => [] end) out))%nat.
+Proof.
+  unfold drop_jobs. revert out. induction l as [|x l IH]; intros out; simpl; [reflexivity|].
+  rewrite IH. simpl. lia.
+Qed.
+
+Lemma lost_actor_exit a cm w x : lookup a (actors w) = Some x ->
+  length (lost_ids (actor_exit a cm w)) = (length (lost_ids w) + length (actor_jobs x))%nat.
+Proof.
+  intros L. unfold actor_exit, lost_ids. rewrite L. simpl.
+  unfold actor_jobs. rewrite app_length.
+  destruct (a_run x); simpl; rewrite lost_drop_jobs; simpl; lia.
+Qed.
+
+(* without stale completions a worker death loses at most one job *)
+Theorem one_per_death : forall c n d rls ls a,
+  run_ok c (init c n d rls) ls ->
+  let w := run c (init c n d rls) ls in
+  (length (lost_ids (step c w (LWDie a))) <= length (lost_ids w) + 1)%nat.
+Proof.
+  intros c n d rls ls a OK w. simpl. unfold w_die.
+  destruct (lookup a (actors w)) as [x|] eqn:L; [|lia].
+  destruct (a_alive x); [|lia].
+  rewrite (lost_actor_exit a (CMailbox a) w x L).
+  pose proof (real_one_at_a_time c n d rls ls a x OK L). lia.
 Qed.
